@@ -24,13 +24,15 @@ import json
 import os
 import sys
 import time
+import zlib
 
 sys.path.insert(0, os.path.dirname(os.path.abspath(__file__)))
 import boot  # noqa: E402
 import common  # noqa: E402
 import tlc  # noqa: E402
 
-MODEL_FAMILIES = ("report", "groups", "sev", "maxtb", "nopos", "files", "checkpoint", "all")
+MODEL_FAMILIES = ("report", "groups", "sev", "maxtb", "nopos", "files", "checkpoint", "copy", "all")
+MODEL_RUNS = (("report", "maxtb", "nopos", "files"), ("groups", "sev", "checkpoint", "copy", "all"))   # one JVM each
 SIM_FAMILIES = ("sim", "simtb")
 INVS = ("InvP1", "InvP2", "InvP3", "InvP4", "InvNoLoss", "InvComplete")
 FILES = [None, "a.py", "b.py"]                 # abstract file index -> filename (lexical order)
@@ -101,7 +103,7 @@ class Real:
 
   def stack(self, p):
     """A stack of real SimpleFrames whose top is at position p and whose callers are p.tb."""
-    if not p["file"] and not p["line"] and not p["method"] and not p["tb"]:
+    if not (p["file"] or p["line"] or p["col"] or p["method"] or p["tb"]):
       return None
     frames = []
     for f in list(p["tb"]) + [None]:
@@ -333,17 +335,24 @@ def judge(real, cases, cmps, max_tb, shards=1):
 # ------------------------------------------------------------------------------------------
 
 
+def steps_upto(c, k):
+  """The steps of case c up to verdict index k (k > len(steps): alternative last step k - len)."""
+  n = len(c["steps"])
+  return c["steps"][:k] if k <= n else c["steps"] + [c["alts"][k - n - 1]]
+
+
 def describe(real, c, k):
   def show(i):
     e = real.errs[i - 1]
-    return "%s@%s:%d:%d%s%s%s" % (e["name"], FILES[e["file"]], e["line"], e["col"],
-                                  "/" + e["method"] if e["method"] else "",
-                                  " tb=" + ">".join(e["tb"]) if e["tb"] else "",
-                                  " W" if e["sev"] == 1 else "")
-  st = c["steps"][k - 1]
-  o, b = st["o"], st["b"]
+    return "%s@%s:%d:%d%s%s%s%s" % (e["name"], FILES[e["file"]], e["line"], e["col"],
+                                    "/" + e["method"] if e["method"] else "",
+                                    " +" + e["det"] if e["det"] else "",
+                                    " tb=" + ">".join(e["tb"]) if e["tb"] else "",
+                                    " W" if e["sev"] == 1 else "")
+  upto = steps_upto(c, k)
+  o, b = upto[-1]["o"], upto[-1]["b"]
   ops = []
-  for s in c["steps"][:k]:
+  for s in upto:
     oo = s["o"]
     if oo["op"] == "add":
       ops.append("%s(%s)" % (oo.get("via", "add"), show(real.eid({f: oo["e"][f] for f in ERR_FIELDS}))))
@@ -362,11 +371,11 @@ def describe(real, c, k):
       [[show(i) for i in cp] for cp in b["caps"]], ", ".join(show(i) for i in b["rep"]), b["len"], b["has"])
 
 
-def compute(seed, thorough, histories=None):
+def compute(seed, thorough, histories=None, real=None):
   """Everything except the bookkeeping on the Run object (so that it can run in a thread).
   histories: [(family, resolved history)] to replay instead of the model's (replay mode)."""
   t0 = time.time()
-  real = Real()
+  real = real or Real()
   max_tb = real.E.MAX_TRACEBACKS
   res = {"puts": {}, "violations": [], "divergences": [], "requires": [], "max_tb": max_tb}
   puts = res["puts"]
@@ -374,47 +383,67 @@ def compute(seed, thorough, histories=None):
 
   if histories is None:
     extra = 1 if thorough else 0
-    nsim = 3000 if thorough else 160
-    with cf.ThreadPoolExecutor(max_workers=3) as ex:
-      fm = ex.submit(model_and_export, MODEL_FAMILIES, extra, max_tb)
+    nsim = 1500 if thorough else 60
+    with cf.ThreadPoolExecutor(max_workers=4) as ex:
+      fm = [ex.submit(model_and_export, fams, extra, max_tb) for fams in MODEL_RUNS]
       fs = [ex.submit(simulate, f, nsim, seed * 10 + n + 1, max_tb, extra) for n, f in enumerate(SIM_FAMILIES)]
-      rm = fm.result()
+      rms = [f.result() for f in fm]
       rs = [f.result() for f in fs]
-    puts["errorlog_states"] = rm.distinct
-    puts["errorlog_transitions"] = rm.generated
+    puts["errorlog_states"] = sum(r.distinct for r in rms)
+    puts["errorlog_transitions"] = sum(r.generated for r in rms)
     puts["errorlog_tlc_s"] = round(time.time() - t0, 1)
-    per = {}
-    for n, c in enumerate(rm.cases):
-      h = resolve(c["h"], n)
+    # every transition of the state graph = (history that first reached the state, operation):
+    # grouped by history, so that TLC walks a common prefix once and judges all its last steps
+    per, groups = {}, {}
+    for n, c in enumerate(c for r in rms for c in r.cases):
+      h = [o for o in c["h"] if o["op"] != "end"]
       per[c["f"]] = per.get(c["f"], 0) + 1
-      cases.append({"f": c["f"], "from": len(h), "h": h})
+      key = c["f"] + json.dumps(h[:-1], sort_keys=True)
+      g = groups.get(key)
+      if g is None:
+        g = groups[key] = {"f": c["f"], "from": len(h), "h": resolve(h[:-1], zlib.crc32(key.encode())), "alts": []}
+      g["alts"].append(resolve([h[-1]], n)[0])
+    cases = list(groups.values())
+    ntrans = sum(len(g["alts"]) for g in cases)
     puts["errorlog_transitions_by_family"] = per
-    res["requires"].append((set(per) == set(MODEL_FAMILIES) and len(cases) >= 2000,
-                            "error-log model exported only %d transitions (%r)" % (len(cases), per)))
-    ntrans = len(cases)
+    puts["errorlog_model_states_expanded"] = len(cases)
+    res["requires"].append((set(per) == set(MODEL_FAMILIES) and ntrans >= 2000,
+                            "error-log model exported only %d transitions (%r)" % (ntrans, per)))
     nh = 0
     for f, r in zip(SIM_FAMILIES, rs):
       res["requires"].append((len(r.cases) >= nsim // 2, "simulation %s produced only %d histories" % (f, len(r.cases))))
       for n, c in enumerate(r.cases):
-        cases.append({"f": c["f"], "from": 1, "h": resolve(c["h"], n)})
+        cases.append({"f": c["f"], "from": 1, "h": resolve(c["h"], n), "alts": []})
         nh += 1
     puts["errorlog_transitions_replayed"] = ntrans
     puts["errorlog_histories"] = nh
   else:
     for f, h in histories:
-      cases.append({"f": f, "from": 1, "h": h})
+      cases.append({"f": f, "from": 1, "h": h, "alts": []})
 
   # ---- replay on the real ErrorLog
   t1 = time.time()
-  nops = 0
+  nops = skipped = 0
   for c in cases:
-    steps = replay(real, c.pop("h"))
+    h = c.pop("h")
+    steps = replay(real, h)
     nops += len(steps)
     c["steps"] = [{"o": o, "b": b} for o, b in steps]
-    c["from"] = min(c["from"], len(steps)) or 1
-  cases = [c for c in cases if c["steps"]]
+    alts, c["alts"] = c["alts"], []
+    if alts and (len(steps) < len(h) or (steps and steps[-1][1]["exc"])):
+      skipped += len(alts)      # the prefix itself failed (reported where it is a last step)
+      alts = []
+    for alt in alts:
+      full = replay(real, h + [alt])
+      nops += len(full)
+      common.require(len(full) == len(h) + 1 and [b for _, b in full[:-1]] == [b for _, b in steps],
+                     "replay of a prefix is not deterministic: %r" % (h,))
+      c["alts"].append({"o": full[-1][0], "b": full[-1][1]})
+    c["from"] = max(1, min(c["from"], len(steps) + 1))
+  cases = [c for c in cases if c["steps"] or c["alts"]]
   puts["errorlog_real_operations"] = nops
-  puts["errorlog_steps_judged"] = sum(len(c["steps"]) - c["from"] + 1 for c in cases)
+  puts["errorlog_transitions_skipped"] = skipped
+  puts["errorlog_steps_judged"] = sum(max(0, len(c["steps"]) - c["from"] + 1) + len(c["alts"]) for c in cases)
   tbs = sorted({tuple(e["tb"]) for e in real.errs} | {()})
   tbs = [t for t in tbs if all(f in FRAME_LINE for f in t)]
   cmps = real.cmp_cases(tbs)
@@ -422,20 +451,26 @@ def compute(seed, thorough, histories=None):
 
   # ---- TLC judges the real states
   t2 = time.time()
-  lines = judge(real, cases, cmps, max_tb, shards=4 if thorough else 2)
+  lines = judge(real, cases, cmps, max_tb, shards=4 if thorough else 3)
   puts["errorlog_judge_s"] = round(time.time() - t2, 1)
   puts["errorlog_cmp_pairs"] = len(cmps)
-  for b in lines["BAD"]:
+  # P2..P4 are properties of a state: inside one walked history a clause is attributed to the
+  # operation after which it fails FIRST (not again to every later operation); shortest histories first
+  failed = {(b["i"], b["k"]): set(b["fails"]) for b in lines["BAD"]}
+  for b in sorted(lines["BAD"], key=lambda b: (len(steps_upto(cases[b["i"] - 1], b["k"])), b["i"], b["k"])):
     c = cases[b["i"] - 1]
-    o = c["steps"][b["k"] - 1]["o"]
-    for clause in b["fails"]:
+    upto = steps_upto(c, b["k"])
+    o, ob = upto[-1]["o"], upto[-1]["b"]
+    before = failed.get((b["i"], min(b["k"], len(c["steps"]) + 1) - 1), set())
+    for clause in sorted(b["fails"]):
+      if clause in before and clause[:2] in ("P2", "P3", "P4"):
+        continue
       res["violations"].append((
           "C04:errorlog:%s:%s" % (clause, o["op"]),
           "error log, %s after %s (family %s): %s" % (clause, o["op"], c["f"], describe(real, c, b["k"])),
-          {"errorlog": {"family": c["f"], "history": [s["o"] for s in c["steps"][:b["k"]]], "step": b["k"],
-                        "clause": clause, "observed": c["steps"][b["k"] - 1]["b"],
-                        "errs": {str(i): real.errs[i - 1] for i in sorted(
-                            set(c["steps"][b["k"] - 1]["b"]["log"]) | set(c["steps"][b["k"] - 1]["b"]["rep"]))}}}))
+          {"errorlog": {"family": c["f"], "history": [s["o"] for s in upto], "step": len(upto),
+                        "clause": clause, "observed": ob,
+                        "errs": {str(i): real.errs[i - 1] for i in sorted(set(ob["log"]) | set(ob["rep"]))}}}))
   notes = {}
   for d in lines["DIV"]:
     c = cases[d["i"] - 1]
@@ -443,7 +478,7 @@ def compute(seed, thorough, histories=None):
       notes[note] = notes.get(note, 0) + 1
       if notes[note] <= 2:
         res["divergences"].append({"family": "errorlog/" + c["f"], "note": note,
-                                   "op": c["steps"][d["k"] - 1]["o"]["op"], "case": describe(real, c, d["k"])})
+                                   "op": steps_upto(c, d["k"])[-1]["o"]["op"], "case": describe(real, c, d["k"])})
   for m in lines["CMP"]:
     notes["cmp"] = notes.get("cmp", 0) + 1
     if notes["cmp"] <= 2:
@@ -458,7 +493,7 @@ def compute(seed, thorough, histories=None):
   puts["errorlog_distinct_errors"] = len(real.errs)
   via = {}
   for c in cases:
-    for s in c["steps"][c["from"] - 1:]:
+    for s in c["steps"][c["from"] - 1:] + c["alts"]:
       if s["o"]["op"] == "add":
         via[s["o"].get("via", "add")] = via.get(s["o"].get("via", "add"), 0) + 1
       elif s["o"]["op"] == "exit":
@@ -466,24 +501,26 @@ def compute(seed, thorough, histories=None):
   puts["errorlog_entry_points"] = via
   if histories is None:
     # vacuity guards, stated on what the spec counted on the judged REAL steps
-    lo = {"nested": 150, "exit-inner": 40, "exit-nonempty": 100, "filter-hit": 100, "filter-hit-inside": 30,
-          "copy": 60, "copy-inside": 15, "copy-filtered": 10, "unsorted-log": 200, "replaced": 300,
-          "incomparable": 300, "overflow": 40, "room-left": 2, "sev-shadow": 20, "deduplicated": 500}
+    lo = {"nested": 300, "exit-inner": 60, "exit-nonempty": 100, "filter-hit": 40, "filter-hit-inside": 15,
+          "copy": 50, "copy-inside": 15, "copy-filtered": 8, "unsorted-log": 400, "replaced": 600,
+          "incomparable": 400, "overflow": 20, "room-left": 5, "sev-shadow": 60, "deduplicated": 1500}
     short = {f: cov.get(f, 0) for f, n in lo.items() if cov.get(f, 0) < n}
     res["requires"].append((not short, "vacuity (error log): too few judged steps with %r (minimum %r)" % (
         short, {f: lo[f] for f in short})))
-    res["requires"].append((via.get("error", 0) >= 200 and via.get("warn", 0) >= 50 and via.get("exit-raise", 0) >= 50,
+    res["requires"].append((via.get("error", 0) >= 500 and via.get("warn", 0) >= 100 and via.get("exit-raise", 0) >= 80,
                             "vacuity (error log): entry points %r" % (via,)))
-    k = next((n for n, c in enumerate(cases) if c["f"] == "maxtb" and len(c["steps"]) >= 4), 0)
-    res["sample"] = {"errorlog": describe(real, cases[k], len(cases[k]["steps"]))}
+    k = next((n for n, c in enumerate(cases) if c["f"] == "maxtb" and len(c["steps"]) >= 3 and c["alts"] and
+              len(set(c["steps"][-1]["b"]["log"])) >= 3), 0)
+    res["sample"] = {"errorlog": describe(real, cases[k], len(cases[k]["steps"]) + len(cases[k]["alts"]))}
   puts["errorlog_wall_s"] = round(time.time() - t0, 1)
   return res
 
 
 def start(seed, thorough):
   """Start the family in a background thread (call after boot.boot()); pass the handle to run_family."""
+  real = Real()       # the pytype imports happen in the caller's thread
   ex = cf.ThreadPoolExecutor(max_workers=1)
-  fut = ex.submit(compute, seed, thorough)
+  fut = ex.submit(compute, seed, thorough, None, real)
   ex.shutdown(wait=False)
   return fut
 
@@ -523,6 +560,7 @@ class _Dry:
   def __init__(self):
     self.seed = int(os.environ.get("VERIF_SEED", 0))
     self.n = 0
+    self.keys = set()
 
   def put(self, k, v):
     print("  %s = %s" % (k, v))
@@ -535,7 +573,8 @@ class _Dry:
 
   def violation(self, key, what, payload):
     self.n += 1
-    if self.n <= 12:
+    if key not in self.keys:      # common.Run keeps the first (shortest) case per key, too
+      self.keys.add(key)
       print("VIOLATION %s :: %s" % (key, what[:500]))
 
 
